@@ -428,3 +428,54 @@ func (c *Cond) compact() {
 	}
 	c.waiters = live
 }
+
+// ---------------------------------------------------------------- Pool
+
+// Pool: see vsync.Pool.
+type Pool struct {
+	New   func() any
+	h     objHdr
+	real  sync.Mutex
+	ep    uint64
+	items []any
+}
+
+func (p *Pool) sync(kind string) {
+	if s := S; s != nil && !s.aborting.Load() {
+		p.h.init(s)
+		s.point(&op{kind: kind, obj: p.h.id, enabled: func() bool { return true }})
+		s.touch(&p.h.chain, 7)
+	}
+}
+
+func (p *Pool) Get() any {
+	p.sync("pool.Get")
+	p.real.Lock()
+	if p.ep != epochCounter { // a new execution: the pool starts empty
+		p.ep, p.items = epochCounter, nil
+	}
+	var v any
+	if n := len(p.items); n > 0 {
+		v, p.items = p.items[n-1], p.items[:n-1]
+		p.real.Unlock()
+		return v
+	}
+	p.real.Unlock()
+	if p.New != nil {
+		return p.New()
+	}
+	return nil
+}
+
+func (p *Pool) Put(v any) {
+	if v == nil {
+		return
+	}
+	p.sync("pool.Put")
+	p.real.Lock()
+	if p.ep != epochCounter {
+		p.ep, p.items = epochCounter, nil
+	}
+	p.items = append(p.items, v)
+	p.real.Unlock()
+}
